@@ -52,8 +52,9 @@ use std::time::Duration;
 
 const NS: u128 = 1_000_000_000;
 const DAY: u128 = 86_400 * NS;
-/// 2027-01-15 08:00:00 UTC
-const T0: u128 = 1_800_000_000 * NS;
+/// 2049-03-22 04:26:40 UTC — far ahead of any wall clock this runs under (the server boots, and
+/// creates its first keys, at the real `now`; every history instant must lie after that).
+const T0: u128 = 2_500_000_000 * NS;
 /// The grace window the property speaks of, as documented (5 minutes); deliberately not read from
 /// the source so that a changed constant is an oracle matter.
 const ORACLE_GRACE: u128 = 300 * NS;
@@ -1124,7 +1125,7 @@ fn main() {
         histories.push(("replay".into(), ops));
     } else {
         histories.extend(scripted());
-        let n = args.cases(20, 220);
+        let n = args.cases(20, 170);
         for i in 0..n {
             let mut r = Rng::for_case(args.seed, i);
             let len = if args.thorough() { r.range(8, 60) } else { r.range(8, 36) } as usize;
